@@ -315,9 +315,9 @@ def key_cover_jobs(ctx, colls, keys, maxtime, caps, shards, driver="paths", fano
     for cap in caps:
         paths = ctx.cover(f"cover-key-k{keys}t{maxtime}c{cap}", "MCKey", key_consts(keys, maxtime, cap), KEY_INV)
         for coll in colls:
-            files = write_shards(ctx, f"{coll}-c{cap}", paths, shards, ctx.seed, limit)
+            files = write_shards(ctx, f"{coll}-k{keys}t{maxtime}c{cap}", paths, shards, ctx.seed, limit)
             for i, pf in enumerate(files):
-                futs.append(ctx.submit(f"{driver}-{coll}-c{cap}-{i}", coll, driver,
+                futs.append(ctx.submit(f"{driver}-{coll}-k{keys}t{maxtime}c{cap}-{i}", coll, driver,
                                        {"paths": pf, "keys": keys, "tmax": maxtime, "fanout": fanout, "export": export,
                                         "max_events": max_events}, flags=flags))
     return futs
@@ -327,11 +327,11 @@ def ord_cover_jobs(ctx, colls, keys, caps, shards, driver="paths", fanout=1, wri
                    max_events=400000):
     futs = []
     for cap in caps:
-        paths = ctx.cover(f"cover-ord-k{keys}c{cap}", "MCOrd", ord_consts(keys, cap, writes), ORD_INV)
+        paths = ctx.cover(f"cover-ord-k{keys}c{cap}{'w' if writes else ''}", "MCOrd", ord_consts(keys, cap, writes), ORD_INV)
         for coll in colls:
-            files = write_shards(ctx, f"{coll}-c{cap}", paths, shards, ctx.seed, limit)
+            files = write_shards(ctx, f"{coll}-k{keys}c{cap}{'w' if writes else ''}", paths, shards, ctx.seed, limit)
             for i, pf in enumerate(files):
-                futs.append(ctx.submit(f"{driver}-{coll}-c{cap}-{i}", coll, driver,
+                futs.append(ctx.submit(f"{driver}-{coll}-k{keys}c{cap}{'w' if writes else ''}-{i}", coll, driver,
                                        {"paths": pf, "keys": keys, "fanout": fanout, "max_events": max_events}, flags=flags))
     return futs
 
